@@ -119,8 +119,10 @@ struct Gen {
 	}
 	std::string missing_path()
 	{
-		switch (c.pickn(6))
+		switch (c.pickn(8))
 		{
+		case 6: return container_path() + (c.coin(50) ? "/18446744073709551616" : "/1844674407370955161" + str(c.range(6, 9)));
+		case 7: return container_path() + "/" + std::string(c.range(20, 30), '9');
 		case 0: return existing_path() + "/nope";
 		case 1: return "/" + ptr_escape(std::string(KEYS[c.pickn(NKEYS)])) + "zz";
 		case 2: return existing_path() + "/99";
